@@ -170,8 +170,28 @@ def check_tree(data: dict, lab: Labels) -> None:
     for kind in {p["origin"][0] for p in snap}:
         lab.tag("origin-" + kind)
     lab.tag_if(ex.n_shared > 0, "shared")
-    pre = data.get("pre_dump", 0) % 4
-    if pre:
+    pre = data.get("pre_dump", 0) % 6
+    if pre >= 4:
+        # an earlier read with options that fails part-way (unknown source index / unknown class)
+        from pyoak.origin import SOURCE_OPTIMIZED_SERIALIZATION_KEY
+
+        lab.tag(f"pre-failed-read-{pre}")
+        bad = root.as_dict(serialization_options={SOURCE_OPTIMIZED_SERIALIZATION_KEY: True})
+        bad["id"] = "no-such-id-anywhere"
+        if pre == 4:
+            bad["origin"] = {"__type": "CodeOrigin", "source": {"idx": 987654}, "position": {}}
+        else:
+            bad["__type"] = "NoSuchNodeClass"
+        try:
+            type(root).as_obj(bad, serialization_options={SOURCE_OPTIMIZED_SERIALIZATION_KEY: True})
+            # (a class that ignores the damaged part may still read it: then a stray node exists)
+        except Exception:  # noqa: BLE001 - any rejection is fine here, C16 is about what follows
+            pass
+        stray = ASTNode.get_any("no-such-id-anywhere")
+        if stray is not None:
+            stray.detach_self()
+        del stray
+    elif pre:
         # an earlier dump of the same tree in another flavour (its result is not used) must not
         # change what the round trip below returns
         from pyoak.node import ASTSerializationDialects
@@ -199,13 +219,15 @@ def check_tree(data: dict, lab: Labels) -> None:
             walk(c)
 
     walk(root)
-    mode = data["alive_mode"] % 4  # 0 all alive, 1 none, 2 subset by mask, 3 subset kept-detached
+    mode = data["alive_mode"] % 5  # 0 all alive, 1 none, 2 subset by mask, 3 subset kept-detached, 4 leaves only
     mask = data["mask"]
     keep_roots = []
     if mode == 0:
         keep_roots = [root]
     elif mode in (2, 3):
         keep_roots = [n for i, n in enumerate(order) if mask >> (i % 40) & 1]
+    elif mode == 4:  # every parent is given up, the childless nodes stay (whatever field type holds them)
+        keep_roots = [n for n in order if not T.live_children(n)]
     alive_ids: set[int] = set()
     for k in keep_roots:
         for n in T.live_nodes(k):
@@ -226,7 +248,7 @@ def check_tree(data: dict, lab: Labels) -> None:
     orig_by_obj = {k_of[id(n)]: n for n in order if id(n) in alive_ids or mode == 3}
     if data["outside"] and data["drop_outside"]:
         outside = None
-    lab.tag(["all-alive", "none-alive", "subset-alive", "subset-alive-rest-held-detached"][mode])
+    lab.tag(["all-alive", "none-alive", "subset-alive", "subset-alive-rest-held-detached", "leaves-alive"][mode])
 
     if data["fresh"]:
         # fresh-process variant: nothing of this process matters; the worker reads the payload
@@ -347,7 +369,7 @@ def st_case(ctx: Ctx):
             "tree": st.one_of(g.inner_tree(), g.inner_tree(), g.tree()),
             "fmt": st.sampled_from([3, 2, 1, 0]),
             "opt": st.sampled_from([3, 2, 1, 0, 0, 3]),
-            "alive_mode": st.sampled_from([2, 1, 3, 2, 1, 0, 2]),
+            "alive_mode": st.sampled_from([2, 1, 3, 2, 1, 0, 2, 4]),
             "mask": st.integers(0, 2**40 - 1),
             "detach_dropped": st.booleans(),
             "outside": st.sampled_from([True, False]),
@@ -355,7 +377,7 @@ def st_case(ctx: Ctx):
             "fresh": st.sampled_from([False] * 5 + [True]),
             "reload_sources": st.booleans(),
             "fresh_sources": st.booleans(),
-            "pre_dump": st.sampled_from([0, 0, 0, 1, 1, 2, 3]),
+            "pre_dump": st.sampled_from([0, 0, 0, 1, 1, 2, 3, 4, 4, 5]),
         }
     )
 
